@@ -121,6 +121,10 @@ def main():
             owner = fn
             fn = getattr(fn, p)
         args = {k: build(v) for k, v in req.get("args", {}).items()}
+        import inspect as _inspect
+
+        if _inspect.ismethod(fn) and isinstance(fn.__self__, type):
+            args.pop("cls", None)  # a classmethod fetched from its class is already bound
         env = {}
         for name, val in (req.get("stubs") or {}).items():
             m, attr = name.rsplit(".", 1)
